@@ -91,7 +91,7 @@ def refinement_check(tier, wd, out):
     return states
 
 
-PM_INVS = "Consistent MarkOK ProofOK ResultOK KeysInjective LoadedEqualsLive"
+PM_INVS = "Consistent MarkOK ProofOK ResultOK KeysInjective LoadedEqualsLive BatchWriteSetOK"
 
 
 def pm_refinement_check(tier, wd, out):
